@@ -21,7 +21,7 @@ import (
 	"github.com/dolthub/dolt/go/zzverif/vsql"
 )
 
-const c46RuleResolve = "1-6 (pattern, ignored) rows with patterns of length 1-5 over {a,b,_,*,%,?} (half of them derived from one seed name so that they overlap); for every table name over {a,b,_,z} of length 1-3 and over {a,b,_} of length 4 (165 names) doltdb.IgnorePatterns.IsTableNameIgnored must equal the documented resolution: `*`/`%` match any run, `?` one character; among the matching patterns those without a strictly more specific matching pattern decide (A is more specific than B iff L(A) is a strict subset of L(B), decided exactly on the product automaton over {a,b,_,other}); contradicting deciders = conflict. Non-trivial: some name is matched by >=2 patterns with different `ignored` values; distinct by pattern set."
+const c46RuleResolve = "1-6 (pattern, ignored) rows with patterns of length 1-5 over {a,b,_,*,%,?} (three quarters of them derived from one seed name by replacing or inserting wildcards, so that they overlap); for every table name over {a,b,_,z} of length 1-3 and over {a,b,_} of length 4 (165 names) doltdb.IgnorePatterns.IsTableNameIgnored must equal the documented resolution: `*`/`%` match any run, `?` one character; among the matching patterns those without a strictly more specific matching pattern decide (A is more specific than B iff L(A) is a strict subset of L(B), decided exactly on the product automaton over {a,b,_,other}); contradicting deciders = conflict. Non-trivial: some name is matched by >=2 patterns with different `ignored` values; distinct by pattern set."
 
 const c46RuleStaging = "one database per case: 0-3 committed tables, 0-5 dolt_ignore rows (patterns of length 1-4 over {a,b,_,*,%,?}, committed with add -f), then 2-5 tables over names {a,b,_}^1..3 in drawn states (new; new+staged; new+staged+modified; tracked unchanged / modified / modified+staged / modified+staged+modified again / dropped / dropped+staged), then 1-3 calls of dolt_add('.'|'-A'|tracked modified table), dolt_commit('-A'|'-a'), dolt_clean([--dry-run][-x][tables]) with optional updates in between. After each call the presence and contents of every table in HEAD, STAGED and WORKING are compared with the set model: add-all / commit -A stage every change except new tables whose name resolves to ignored (conflict on a new or dropped table = the call fails naming a conflicting table and changes nothing); commit -a stages tracked changes only; clean removes exactly the tables that are in working but not staged and not ignored (-x: also ignored; named: only among the named; --dry-run: nothing), never anything tracked. Non-trivial: a table in play is matched by >=2 patterns with different values; distinct by patterns + table states + calls."
 
